@@ -127,3 +127,60 @@ pub fn replay(args: &Args) {
         }
     }
 }
+
+/// C01, impl -> spec: evaluate seeded (game, profile) pairs with the event hook on and log, per
+/// deviator, the order in which the real code resolved infosets, the value of each and the result
+pub fn record(args: &Args) {
+    use crate::cfr::verif;
+    use cfr::verif::Event;
+    let cases = util::read_ndjson(args.get("cases"));
+    let mut out = Out::create(args.get("out"));
+    let mut failed = Vec::new();
+    let mut events = 0usize;
+    let mut pops_total = 0usize;
+    let rat = |x: f64| match util::reconstruct(x, 30000) {
+        Some((n, d)) => json!([n, d]),
+        None => json!([0, 0]),
+    };
+    for case in cases.iter() {
+        let t: Tree = serde_json::from_value(case["tree"].clone()).unwrap();
+        let mut pj = case["prof"].clone();
+        for side in pj.as_array_mut().unwrap().iter_mut() {
+            if side.as_array().map_or(false, |a| a.is_empty()) {
+                *side = json!({});
+            }
+        }
+        let prof: Profile = serde_json::from_value(pj.clone()).unwrap();
+        let (t2, prof2) = (t.clone(), prof.clone());
+        let res = util::catch(move || {
+            let game = tree::build(&t2).map_err(|e| format!("from_root: {e:?}"))?;
+            let strat = game.from_named(tree::named(&t2, &prof2)).map_err(|e| format!("from_named: {e:?}"))?;
+            verif::reset();
+            verif::set_record(true, false);
+            let _ = strat.get_info();
+            let log = verif::take_log();
+            verif::reset();
+            Ok::<_, String>(log)
+        })
+        .and_then(|r| r);
+        match res {
+            Err(msg) => failed.push(json!({"id": case["id"], "error": msg})),
+            Ok(log) => {
+                let mut sides = [Vec::new(), Vec::new()];
+                let mut results = [json!([0, 0]), json!([0, 0])];
+                for ev in log.iter() {
+                    match ev {
+                        Event::EvalPop(pl, info, value) => sides[*pl].push(json!({"info": info + 1, "value": rat(*value)})),
+                        Event::EvalEnd(vals) => results = [rat(vals[0]), rat(vals[1])],
+                        _ => {}
+                    }
+                }
+                pops_total += sides[0].len() + sides[1].len();
+                events += 1;
+                out.line(&json!({"e": "eval", "id": case["id"], "tree": t, "prof": pj,
+                    "one": {"pops": sides[0], "result": results[0]}, "two": {"pops": sides[1], "result": results[1]}}));
+            }
+        }
+    }
+    println!("{}", json!({"events": events, "pops": pops_total, "failed": failed}));
+}
